@@ -12,6 +12,7 @@ import (
 	"context"
 	"encoding/json"
 	"fmt"
+	"io"
 	"os"
 	"os/exec"
 	"runtime"
@@ -21,6 +22,7 @@ import (
 	"sync"
 	"testing"
 	"testing/synctest"
+	"time"
 
 	goat "github.com/avos-io/goat"
 	"github.com/avos-io/goat/gen/goatorepo"
@@ -115,6 +117,8 @@ type PAct struct {
 	CancelOn bool `json:"cancelon,omitempty"`
 	// deliver: which sub-messages the envelope carries besides the header (pxShape); 0 = a body with the token
 	Shape int `json:"shape,omitempty"`
+	// failread / setw fail / setw failafter / dial fail: the error value (mkErr)
+	Err int `json:"err,omitempty"`
 }
 
 type pxScenario struct {
@@ -154,28 +158,121 @@ func (e pxEnv) coq() string {
 }
 
 type pxErr struct {
-	rec  int
-	kind string
+	rec   int
+	kind  string
+	inner error // what the error wraps (errors.Is / errors.As see it)
+	tmo   bool  // net.Error-style: Timeout() and Temporary() report true
 }
 
-func (e *pxErr) Error() string { return fmt.Sprintf("injected %s failure of record %d", e.kind, e.rec) }
+func (e *pxErr) Error() string {
+	if e.inner != nil {
+		return fmt.Sprintf("injected %s failure of record %d: %v", e.kind, e.rec, e.inner)
+	}
+	return fmt.Sprintf("injected %s failure of record %d", e.kind, e.rec)
+}
+func (e *pxErr) Unwrap() error   { return e.inner }
+func (e *pxErr) Timeout() bool   { return e.tmo }
+func (e *pxErr) Temporary() bool { return e.tmo }
 
-// deafRW is a transport whose blocked Read / Write ignore their context.
-type deafRW struct{ ep *Endpoint }
+// the error VALUE of an injected read / write / dial failure: 0 an error of the harness's own, 1 wrapping
+// context.Canceled, 2 wrapping context.DeadlineExceeded, 3 wrapping io.EOF, 4 a net.Error-style timeout, and the bare
+// values 5 context.Canceled, 6 context.DeadlineExceeded, 7 io.EOF (a bare value carries no identity: the record it was
+// injected into is remembered per name)
+const pxNumErrKinds = 8
 
-func (d deafRW) Read(ctx context.Context) (*Rpc, error) { return d.ep.Read(context.Background()) }
-func (d deafRW) Write(ctx context.Context, r *Rpc) error {
-	return d.ep.Write(context.Background(), r)
+func (r *pxRig) mkErr(rec *pxRec, kind string, ek int) error {
+	switch ek % pxNumErrKinds {
+	case 1:
+		return &pxErr{rec: rec.idx, kind: kind, inner: context.Canceled}
+	case 2:
+		return &pxErr{rec: rec.idx, kind: kind, inner: context.DeadlineExceeded}
+	case 3:
+		return &pxErr{rec: rec.idx, kind: kind, inner: io.EOF}
+	case 4:
+		return &pxErr{rec: rec.idx, kind: kind, tmo: true}
+	case 5:
+		r.bare(context.Canceled, rec)
+		return context.Canceled
+	case 6:
+		r.bare(context.DeadlineExceeded, rec)
+		return context.DeadlineExceeded
+	case 7:
+		r.bare(io.EOF, rec)
+		return io.EOF
+	}
+	return &pxErr{rec: rec.idx, kind: kind}
+}
+
+func (r *pxRig) bare(e error, rec *pxRec) {
+	r.mu.Lock()
+	if r.bareOwner == nil {
+		r.bareOwner = map[error]*pxRec{}
+	}
+	r.bareOwner[e] = rec
+	r.mu.Unlock()
+}
+
+// pxConn is what the proxy gets as a peer connection: the scripted Endpoint plus
+//   - deaf: blocked Read / Write ignore their context;
+//   - a record of every Write call that returned an error (the model's EvWFail), and whether the envelope had
+//     reached the peer before the error ("delivers, then fails": setw failafter);
+type pxFailedWrite struct {
+	rpc     *Rpc
+	reached bool
+}
+
+type pxConn struct {
+	ep        *Endpoint
+	deaf      bool
+	mu        sync.Mutex
+	failAfter error
+	failed    []pxFailedWrite
+	skip      map[int]bool // indices of ep.Written that are failed-after-delivery writes, not successes
+}
+
+func (c *pxConn) Read(ctx context.Context) (*Rpc, error) {
+	if c.deaf {
+		ctx = context.Background()
+	}
+	return c.ep.Read(ctx)
+}
+
+func (c *pxConn) Write(ctx context.Context, r *Rpc) error {
+	if c.deaf {
+		ctx = context.Background()
+	}
+	err := c.ep.Write(ctx, r)
+	c.mu.Lock()
+	defer c.mu.Unlock()
+	if err == nil && c.failAfter != nil {
+		// the envelope is with the peer; the Write reports an error all the same
+		c.skip[len(c.ep.WrittenCopy())-1] = true
+		c.failed = append(c.failed, pxFailedWrite{r, true})
+		return c.failAfter
+	}
+	if err != nil {
+		c.failed = append(c.failed, pxFailedWrite{r, false})
+	}
+	return err
+}
+
+func (c *pxConn) setFailAfter(err error) {
+	c.mu.Lock()
+	c.failAfter = err
+	c.mu.Unlock()
 }
 
 type dialRes struct {
 	ok   bool
 	deaf bool
+	err  error
 }
 
 type pxRec struct {
 	name    int64
 	ep      *Endpoint
+	cn      *pxConn
+	lastF   int
 	dialled bool
 	dialCh  chan dialRes
 	pending bool // the dial has not been answered
@@ -196,11 +293,12 @@ type pxObs struct {
 	Ngoat int      `json:"ngoat"`
 	Drops int64    `json:"drops"`
 	Crash bool     `json:"crash"`
+	WFail []string `json:"wfail"`
 }
 
 func (o pxObs) coq() string {
-	return fmt.Sprintf("(mkPObs %s %s %s %s %s %d %d %d %d %d %d %s)", coqList(o.Outs), zList(o.Dials), coqList(o.Disc), zList(o.Reg),
-		coqBool(o.Fw), o.Nrd, o.Nwr, o.Nrw, o.Ndl, o.Ngoat, o.Drops, coqBool(o.Crash))
+	return fmt.Sprintf("(mkPObs %s %s %s %s %s %d %d %d %d %d %d %s %s)", coqList(o.Outs), zList(o.Dials), coqList(o.Disc), zList(o.Reg),
+		coqBool(o.Fw), o.Nrd, o.Nwr, o.Nrw, o.Ndl, o.Ngoat, o.Drops, coqBool(o.Crash), coqList(o.WFail))
 }
 
 type pxRig struct {
@@ -216,6 +314,7 @@ type pxRig struct {
 	crash    bool
 	orig     map[int64]*Rpc
 	byId     map[uint64]int64
+	bareOwner map[error]*pxRec
 	lastDrop int64
 	nDel     uint64
 }
@@ -327,10 +426,8 @@ func (r *pxRig) find(name int64, gen int) *pxRec {
 }
 
 func (r *pxRig) conn(rec *pxRec, deaf bool) goat.RpcReadWriter {
-	if deaf {
-		return deafRW{rec.ep}
-	}
-	return rec.ep
+	rec.cn = &pxConn{ep: rec.ep, deaf: deaf, skip: map[int]bool{}}
+	return rec.cn
 }
 
 // do performs one action; "" when the action does not apply (it is then left out of the case)
@@ -390,7 +487,7 @@ func (r *pxRig) do(a PAct) string {
 		if rec == nil {
 			return ""
 		}
-		rec.ep.FailRead(&pxErr{rec.idx, "read"})
+		rec.ep.FailRead(r.mkErr(rec, "read", a.Err))
 		return fmt.Sprintf("AFailRead %d", rec.idx)
 	case "setw":
 		rec := r.find(a.N, a.Gen)
@@ -399,14 +496,32 @@ func (r *pxRig) do(a PAct) string {
 		}
 		switch a.M {
 		case "ok":
+			if rec.cn != nil {
+				rec.cn.setFailAfter(nil)
+			}
 			rec.ep.FailWrites(nil)
 			rec.ep.UnblockWrites()
 			return fmt.Sprintf("ASetWrite %d WOk", rec.idx)
 		case "fail":
-			rec.ep.FailWrites(&pxErr{rec.idx, "write"})
+			if rec.cn != nil {
+				rec.cn.setFailAfter(nil)
+			}
+			rec.ep.FailWrites(r.mkErr(rec, "write", a.Err))
+			rec.ep.UnblockWrites()
+			return fmt.Sprintf("ASetWrite %d WFail", rec.idx)
+		case "failafter":
+			// the Write hands the envelope to the peer and THEN returns an error (for the proxy: a failed Write)
+			if rec.cn == nil {
+				return "" // the dial has not been answered: there is no connection yet
+			}
+			rec.cn.setFailAfter(r.mkErr(rec, "write", a.Err))
+			rec.ep.FailWrites(nil)
 			rec.ep.UnblockWrites()
 			return fmt.Sprintf("ASetWrite %d WFail", rec.idx)
 		default:
+			if rec.cn != nil {
+				rec.cn.setFailAfter(nil)
+			}
 			rec.ep.FailWrites(nil)
 			rec.ep.BlockWrites()
 			return fmt.Sprintf("ASetWrite %d WBlock", rec.idx)
@@ -425,7 +540,7 @@ func (r *pxRig) do(a PAct) string {
 		}
 		rec.pending = false
 		if a.M == "fail" {
-			rec.dialCh <- dialRes{ok: false}
+			rec.dialCh <- dialRes{ok: false, err: r.mkErr(rec, "dial", a.Err)}
 			return fmt.Sprintf("ADialFail %d", rec.idx)
 		}
 		rec.dialCh <- dialRes{ok: true, deaf: a.Deaf}
@@ -453,12 +568,28 @@ func (r *pxRig) snapshot() pxObs {
 		o.Dials = append(o.Dials, rec.name)
 	}
 	sort.Strings(o.Disc)
+	o.WFail = []string{}
 	for _, rec := range r.recs {
 		ws := rec.ep.WrittenCopy()
-		for _, w := range ws[rec.lastW:] {
+		var skip map[int]bool
+		var failed []pxFailedWrite
+		if rec.cn != nil {
+			rec.cn.mu.Lock()
+			skip = rec.cn.skip
+			failed = append(failed, rec.cn.failed[rec.lastF:]...)
+			rec.lastF = len(rec.cn.failed)
+			rec.cn.mu.Unlock()
+		}
+		for k, w := range ws[rec.lastW:] {
+			if skip[rec.lastW+k] {
+				continue // a Write that delivered and then failed: listed below, not a success
+			}
 			o.Outs = append(o.Outs, coqPair(strconv.Itoa(rec.idx), r.envOf(w).coq()))
 		}
 		rec.lastW = len(ws)
+		for _, f := range failed {
+			o.WFail = append(o.WFail, fmt.Sprintf("(%d, %s, %s)", rec.idx, r.envOf(f.rpc).coq(), coqBool(f.reached)))
+		}
 	}
 	for _, k := range r.p.VerifProxyClients() {
 		o.Reg = append(o.Reg, pxTok(k))
@@ -505,17 +636,22 @@ func (r *pxRig) start() {
 			r.mu.Unlock()
 			res := <-rec.dialCh
 			if !res.ok {
-				return nil, &pxErr{rec.idx, "dial"}
+				if res.err != nil {
+					return nil, res.err
+				}
+				return nil, &pxErr{rec: rec.idx, kind: "dial"}
 			}
 			return r.conn(rec, res.deaf), nil
 		},
 		icp,
 		func(id string, reason error) {
 			who := int64(-1)
+			r.mu.Lock()
 			if pe, ok := reason.(*pxErr); ok {
 				who = int64(pe.rec)
+			} else if rec := r.bareOwner[reason]; rec != nil && pxName(rec.name) == id {
+				who = int64(rec.idx)
 			}
-			r.mu.Lock()
 			r.discs = append(r.discs, coqPair(coqZ(pxTok(id)), coqZ(who)))
 			r.mu.Unlock()
 		})
@@ -607,6 +743,9 @@ func runPxScenario(t *testing.T, idx int, kind string, sc pxScenario, em *Emitte
 			if len(terms) == 0 {
 				continue
 			}
+			synctest.Wait()
+			// a tick of virtual time: the proxy has no timer, nothing may happen; a retry loop would run now
+			time.Sleep(100 * time.Millisecond)
 			synctest.Wait()
 			if rig.cancelW && rig.ctx.Err() == nil {
 				// the envelope that was to trigger the cancellation never reached the interceptor
